@@ -23,6 +23,8 @@ MULTI_OPS = [i for i, o in enumerate(irlib.OPS) if o in ("in.setslice2", "out.se
 
 
 K2_STRIDE = 5
+PARTS = 4
+HEAVY = {"conv.rename_values2", "conv.rename_values3", "Node(outputs3=)", "init.update_keys", "in.setslice2", "out.setslice2", "in.extend3", "out.extend3"}
 
 
 def body_for(seed, ops_fixed, k):
@@ -61,10 +63,15 @@ def make_case(tier, key):
         body = body_for(seed, [op], 1)
     else:
         _, seed, op, sub = key
+        part = None
+        if sub[-1].isdigit():       # "node2" = third quarter of the node sub-alphabet (first operations with many parameters)
+            sub, part = sub[:-1], int(sub[-1])
         subops = irlib.COLLECTION_OPS if sub == "coll" else (IO_OPS if sub == "io" else irlib.NODE_OPS)
+        if part is not None:
+            subops = subops[part::PARTS]
         ranges = {f"{p}{i}": r for i in (0, 1) for p, r in (RANGES_IO if sub == "io" else RANGES_K2).items()}
         ranges["o1"] = (0, len(subops) - 1)
-        name = f"k2[seed {seed}: {irlib.OPS[op]} ; any {sub} op]"
+        name = f"k2[seed {seed}: {irlib.OPS[op]} ; any {sub} op{'' if part is None else f' (part {part + 1}/{PARTS})'}]"
         inner = body_for(seed, [op], 2)
 
         if sub == "io":
@@ -96,8 +103,11 @@ def keys_for(tier):
         # every first operation is paired with 2 of the 10 seeds (stride 5 over seed + operation); the second operation is
         # symbolic inside the sub-alphabet.  (All seed x operation pairs would take ~4 h on 16 cores.)
         for s in range(irlib.N_SEEDS):
-            keys += [("k2", s, o, "coll") for o in irlib.COLLECTION_OPS if (s + o) % K2_STRIDE == 0]
-            keys += [("k2", s, o, "node") for o in irlib.NODE_OPS if (s + o) % K2_STRIDE == 0]
+            for o in irlib.COLLECTION_OPS + irlib.NODE_OPS:
+                if (s + o) % K2_STRIDE:
+                    continue
+                sub = "coll" if o in irlib.COLLECTION_OPS else "node"
+                keys += [("k2", s, o, f"{sub}{q}") for q in range(PARTS)] if irlib.OPS[o] in HEAVY else [("k2", s, o, sub)]
     return keys
 
 
